@@ -3,7 +3,7 @@
    [wf_files fs = true] is the invariant of a shard directory: file names (TSM and tombstone)
    distinct and in FileStore order, tombstones only where a tombstone file exists.  It is
    executable and re-checked on every observed source state by Run.v. *)
-From Verif Require Import C18.Model C18.Names C18.Proofs C18.ProofsCopy C18.ProofsExport C18.ProofsImport C18.Spec C18.Run C18.ProofsLink.
+From Verif Require Import C18.Model C18.Names C18.Proofs C18.ProofsCopy C18.ProofsExport C18.ProofsImport C18.ProofsIncr C18.Spec C18.Run C18.ProofsLink.
 From VerifGen Require Import Consts.
 Open Scope Z_scope.
 
@@ -48,7 +48,8 @@ Print Assumptions backup_under_writes.
 
 (* Any failure before the metadata command — the destination cannot reach the source, the
    source does not have the shard, its snapshot fails, the stream is cut after ANY number of
-   bytes short of its full length, CreateShard fails, the response is lost — whatever the
+   bytes short of its full length, tar.Stream fails on the source before ANY member (with or
+   without that member's header written), CreateShard fails, the response is lost — whatever the
    source, the destination and the member sizes are: the RPC reports failure and the owner
    list is unchanged. *)
 Theorem failed_copy_not_advertised :
@@ -120,6 +121,30 @@ Theorem import_backup_eq :
 Proof. exact import_backup_eq_lemma. Qed.
 Print Assumptions import_backup_eq.
 
+(* Incremental restore (partial: under [incr_hyp]).  The destination directory [d0] is, as a map
+   from file names to contents, an exact copy of the file list [fs0] (e.g. the result of
+   [restore_backup_eq], or of an earlier increment: the conclusion re-establishes the premise,
+   so increments chain).  [fs1] is the source's file list when the backup of everything modified
+   after [since] is taken.  Hypothesis [incr_hyp since fs0 fs1], exactly: every TSM file and every
+   tombstone file of [fs1] that is NOT newer than [since] is unchanged from [fs0], and no file of
+   [fs0] has been removed from the source nor lost its tombstone file (no compaction replaced
+   it).  Then the archive — which may hold tombstone files WITHOUT their TSM files — restored
+   over [d0] succeeds, and the destination reads exactly like the source's files, whatever
+   cache [c] the destination holds.  Without the hypothesis (a compaction between the two
+   backups) the destination keeps files the source no longer has: see the harness cases
+   classified c18-incremental-restore-keeps-removed-files. *)
+Theorem incremental_restore_eq_partial :
+  forall base since fs0 fs1 d0 c,
+  wf_files fs0 = true -> wf_files fs1 = true -> incr_hyp since fs0 fs1 ->
+  NoDup (map fst d0) -> (forall n, dir_get n d0 = dir_get n (dir_of fs0)) ->
+  let ms := since_filter (Some since) (walk base fs1) in
+  exists d1,
+    restore base (mk_dshard d0 c) ms (length ms) EndMarker = Some (mk_dshard d1 c) /\
+    NoDup (map fst d1) /\ (forall n, dir_get n d1 = dir_get n (dir_of fs1)) /\
+    forall k lo hi asc, dshard_read (mk_dshard d1 c) k lo hi asc = read (map to_tsm fs1) c k lo hi asc.
+Proof. exact incremental_restore_lemma. Qed.
+Print Assumptions incremental_restore_eq_partial.
+
 (* ---- the model satisfies the executable spec (C18/Spec.v, as evaluated by Run.v) for all inputs ---- *)
 
 Theorem model_satisfies_spec_full :
@@ -178,6 +203,17 @@ Theorem failed_copy_not_advertised_unpatched_refuted :
 Proof. exact cut_stream_accepted_unpatched. Qed.
 Print Assumptions failed_copy_not_advertised_unpatched_refuted.
 
+(* pinned tree: tar.Stream wrote the end-of-archive marker in a deferred Close, also after a
+   walk that failed between two members: the partial archive was installed as complete *)
+Theorem source_error_trailer_unpatched_refuted :
+  exists s base d,
+    let ms := walk base (sh_files s) in
+    wf_files (sh_files s) = true /\
+    restore base empty_dshard ms 1 EndMarker = Some d /\
+    dshard_read d k_w 0 10 true <> shard_read s k_w 0 10 true.
+Proof. exact source_error_trailer_accepted_unpatched. Qed.
+Print Assumptions source_error_trailer_unpatched_refuted.
+
 (* current tree (known finding c18-backup-busy-skips-cache): when the snapshotter stays busy
    for all attempts Backup proceeds without the cache and the copy lacks acknowledged points *)
 Theorem restore_backup_eq_busy_refuted :
@@ -200,8 +236,8 @@ Example restore_backup_eq_nonvacuous :
 Proof. split; vm_compute; reflexivity. Qed.
 
 Example failed_copy_nonvacuous :
-  fails (mk_faults false false SnapIdle (Some 700) false false) [100; 200] /\
-  cr_dst (copy_shard (mk_faults false false SnapIdle (Some 700) false false) [50]%N 0 [100]%N [100; 200] ex_shard None 3%N [1; 5]%N)
+  fails (mk_faults false false SnapIdle (Some 700) None false false) [100; 200] /\
+  cr_dst (copy_shard (mk_faults false false SnapIdle (Some 700) None false false) [50]%N 0 [100]%N [100; 200] ex_shard None 3%N [1; 5]%N)
     = Some empty_dshard.
 Proof. split; [right; right; right; left; exists 700; split; [reflexivity|vm_compute; reflexivity]|vm_compute; reflexivity]. Qed.
 
@@ -226,3 +262,18 @@ Example import_nonvacuous :
   wf_files (rename_files fresh_impl 1 (sh_files (write_snapshot [50]%N 0 ex_shard))) = true /\
   length (sh_files (write_snapshot [50]%N 0 ex_shard)) = 2%nat.
 Proof. split; vm_compute; reflexivity. Qed.
+
+(* a delete that hits a file the earlier backup shipped: the increment is the tombstone file alone *)
+Definition ex_old : sfile := mk_sfile [49]%N [(k_w, [[(1, VInt 7); (2, VInt 8)]])] [] false 5 0 [].
+Definition ex_new : sfile := mk_sfile [49]%N [(k_w, [[(1, VInt 7); (2, VInt 8)]])] [(k_w, (2, 2))] true 5 20 [].
+
+Example incremental_nonvacuous :
+  incr_hyp 10 [ex_old] [ex_new] /\
+  map m_name (since_filter (Some 10) (walk [100]%N [ex_new])) = [member_path [100]%N (tomb_name ex_new)] /\
+  read (map to_tsm [ex_new]) empty_cache k_w 0 10 true = [(1, VInt 7)].
+Proof.
+  split; [|split; vm_compute; reflexivity]. repeat split.
+  - intros f [<-|[]]. right. exists ex_old. repeat split. left. reflexivity.
+  - intros f [<-|[]] _. left. reflexivity.
+  - intros f0 [<-|[]]. exists ex_new. repeat split. left. reflexivity.
+Qed.
